@@ -562,6 +562,13 @@ func (fc *FnCtx) unop(x *ssa.UnOp) {
 			}
 			return
 		}
+		if gl, ok := x.X.(*ssa.Global); ok {
+			if c, ok := g.ld.constGlobal(gl); ok {
+				g.note("assumed: package variable " + shortPkg(gl.String()) + " keeps its initial constant value (no function of the loaded packages assigns it)")
+				fc.vals[x] = Val{t: fc.constVal(c).t, ty: x.Type()}
+				return
+			}
+		}
 		l := fc.locOf(x.X)
 		fc.nilCheck(x.X, x)
 		if l.kind == "field" {
@@ -575,6 +582,10 @@ func (fc *FnCtx) unop(x *ssa.UnOp) {
 			fc.assume(rc, "range")
 		}
 		fc.boundRefs(x.Type(), fc.vals[x].t)
+		if gl, ok := x.X.(*ssa.Global); ok && g.ld.nonNilGlobal(gl) && g.sortOf(x.Type()) == "Iface" {
+			g.note("assumed: package variable " + shortPkg(gl.String()) + " keeps the non-nil error it is initialised with (no function of the loaded packages assigns it)")
+			fc.assume(fmt.Sprintf("(not (= (itag %s) 0))", fc.vals[x].t), "non-nil package error")
+		}
 		// closure identity through cells is lost
 	case token.ARROW:
 		// channel receive: arbitrary value
